@@ -82,3 +82,34 @@ package nfpm
 //@     invariant [C11 C13] accumulator-fresh: contents == nil || fresh(contents)
 //@     invariant [C13] own-so-far: forall(0, len(contents), func(i int) bool { return contents[i] != nil && (contents[i].Packager == format || contents[i].Packager == "") })
 //@     invariant [C13] elements-non-nil: forall(0, len(info.Contents), func(i int) bool { return info.Contents[i] != nil })
+//
+//@ import "os"
+//
+//@ spec func orElse(a, b string) string {
+//@     if a != "" { return a }
+//@     return b
+//@ }
+//
+//@ func (c *Config) expandEnvVars()
+//@   requires c != nil
+//@   ensures [C16] documented-scalar-fields-are-expanded: c.Release == os.Expand(old(c.Release), c.envMappingFunc) && c.Version == os.Expand(old(c.Version), c.envMappingFunc) && c.Prerelease == os.Expand(old(c.Prerelease), c.envMappingFunc) && c.Platform == os.Expand(old(c.Platform), c.envMappingFunc) && c.Arch == os.Expand(old(c.Arch), c.envMappingFunc) && c.Name == os.Expand(old(c.Name), c.envMappingFunc) && c.Homepage == os.Expand(old(c.Homepage), c.envMappingFunc) && c.Maintainer == os.Expand(old(c.Maintainer), c.envMappingFunc) && c.Vendor == os.Expand(old(c.Vendor), c.envMappingFunc) && c.Description == os.Expand(old(c.Description), c.envMappingFunc)
+//@   ensures [C16] key-files-are-expanded: c.Deb.Signature.KeyFile == os.Expand(old(c.Deb.Signature.KeyFile), c.envMappingFunc) && c.RPM.Signature.KeyFile == os.Expand(old(c.RPM.Signature.KeyFile), c.envMappingFunc) && c.APK.Signature.KeyFile == os.Expand(old(c.APK.Signature.KeyFile), c.envMappingFunc)
+//@   ensures [C16] rpm-packager-is-expanded-once: c.RPM.Packager == os.Expand(old(c.RPM.Packager), c.envMappingFunc)
+//@   ensures [C16] passphrase-from-the-format-variable-else-the-general-one: c.Deb.Signature.KeyPassphrase == orElse(os.Expand("$NFPM_DEB_PASSPHRASE", c.envMappingFunc), os.Expand("$NFPM_PASSPHRASE", c.envMappingFunc)) && c.RPM.Signature.KeyPassphrase == orElse(os.Expand("$NFPM_RPM_PASSPHRASE", c.envMappingFunc), os.Expand("$NFPM_PASSPHRASE", c.envMappingFunc)) && c.APK.Signature.KeyPassphrase == orElse(os.Expand("$NFPM_APK_PASSPHRASE", c.envMappingFunc), os.Expand("$NFPM_PASSPHRASE", c.envMappingFunc))
+//@   loop 0
+//@     invariant [C16] true
+//@   loop 1
+//@     invariant [C16] true
+//@   loop 2
+//@     invariant [C16] true
+//@   ensures [C16] other-scalars-are-left-as-written: c.License == old(c.License) && c.Section == old(c.Section) && c.Priority == old(c.Priority) && c.Epoch == old(c.Epoch) && c.VersionMetadata == old(c.VersionMetadata) && c.VersionSchema == old(c.VersionSchema) && c.Changelog == old(c.Changelog) && c.Target == old(c.Target)
+//
+//@ import "github.com/goreleaser/nfpm/v2/files"
+//
+//@ trusted func (c *Config) expandEnvVarsStringSlice(items []string) (result []string)
+//@   ensures [C16] same-backing-array: len(result) <= len(items) && (len(items) == 0 || result == nil || &result[0] == &items[0] || len(result) == 0)
+//@   modifies [C11 C12] elems(items)
+//
+//@ trusted func (c *Config) expandEnvVarsContents(contents files.Contents) (result files.Contents)
+//@   ensures [C16] same-list: len(result) == len(contents)
+//@   modifies [C11 C12] elems(contents)
